@@ -43,7 +43,7 @@ Qed.
 Theorem C05_orefa_init : forall um, orefa_inv (o_init_fs Linux um).
 Proof.
   intros um. unfold o_init_fs. apply inv_with_umask.
-  repeat (first [apply step_chmod | apply step_mkdir_all]).
+  apply step_chmod. apply step_mkdir_all. apply step_chmod. apply step_mkdir_all. apply step_chmod. apply step_mkdir_all.
   constructor; cbn [o_os o_cwd o_index o_heap].
   - reflexivity.
   - exists []. split; [constructor|reflexivity].
@@ -130,7 +130,7 @@ Proof.
   destruct (hi_keys _ _ Hh k i Hin) as [[-> _]|(cs & Hcs & ->)].
   - right. split; reflexivity.
   - destruct cs as [|c cs]; [left; reflexivity|right].
-    rewrite <- (abs_path_rpath (c :: cs)) by discriminate.
+    rewrite <- (@abs_path_rpath (c :: cs)) by discriminate.
     split; [reflexivity|apply clean_abs_path_fix; exact Hcs].
 Qed.
 
